@@ -129,8 +129,12 @@ def check_selection(seed, n_cases, n_max=4, debug=False):
         # only when ALL of d's parents are selected, whatever order the traversal meets them in
         import itertools
 
-        for k in (2, 3):
+        for k, stub in ((2, False), (3, False), (2, True), (3, True)):
             ps = [NAMES[i] for i in range(k)]
+            if stub:
+                # a COMPUTED node whose id looks like an argument id (the identity stub of a sub-DAG input, "h.h>!>u"): it is a
+                # parent like any other and has a value only if it is part of the run
+                ps[-1] = "h.h>!>u"
             for chain in (False, True):
                 for r in range(1, k + 1):
                     for sub in itertools.combinations(ps, r):
@@ -545,6 +549,19 @@ def check_compose(seed, n_cases, n_max=4):
     """C19: compose(inputs, outputs) computes the outputs from the supplied intermediate values"""
     rnd = random.Random(seed)
     viol, cases = [], 0
+    # deterministic: a chain of setup nodes p -> s in front of the output, composed before anything ran / after a call /
+    # after setup(): the composition needs every node between its inputs and its outputs, whether or not the original
+    # already holds a value for it
+    for pre in ("none", "call", "setup"):
+        for ins in ([], ["x"]):
+            for s_is_setup in (True, False):
+                nodes = [dict(id="p", deps=[], prio=0, seq=False, res="thread", setup=True), dict(id="s", deps=[("p", [])], prio=0, seq=False, res="thread", setup=s_is_setup),
+                         dict(id="x", deps=[], prio=0, seq=False, res="thread"), dict(id="o", deps=[("s", []), ("x", [])], prio=0, seq=False, res="thread")]
+                cw = World(nodes)
+                cases += 1
+                v = one_compose(cw, list(ins), ["o"], pre=pre)
+                if v:
+                    viol.append(dict(kind="history", check="compose", seed=seed, index=-cases, world=cw.describe(), inputs=ins, outputs=["o"], before_compose=pre, violations=v))
     for idx in range(n_cases):
         w = rand_world(rnd, rnd.randint(2, n_max), setup_p=0.3 if idx % 3 == 0 else 0.0)
         # make some references keyed / keyword / activation so that every kind of reference is rewired
@@ -592,13 +609,17 @@ def _original_unchanged(w, dag, before):
     return []
 
 
-def one_compose(w, ins, outs):
+def one_compose(w, ins, outs, pre=None):
     import warnings
 
     v = []
     dag = w.build_dag()
     val0, st0 = reference(w)
-    if "__kf_index__" in st0 or len(ins) + len(outs) % 2 == 0:
+    if pre == "setup":
+        # only the setup nodes have run when compose is called
+        run_controlled(lambda: dag.setup(), w)
+        before = ("return", tuple(val0[i] for i in w.order))
+    elif pre == "call" or (pre is None and ("__kf_index__" in st0 or (len(ins) + len(outs)) % 2 == 0)):
         before, _ = run_controlled(lambda: dag(), w)
     else:
         # compose BEFORE the original has ever run (its setup nodes have no result yet): the original must afterwards
